@@ -1105,7 +1105,7 @@ def c11_post(ctx, cases, impl):
 # ------------------------------------------------------------------------------------------------------ registry
 
 PROPS = {
-    'C01': dict(modules=['Inkayaku.Props.C01', 'Inkayaku.Props.Closure'], theorems=['Inkayaku.C01.castle_masks_eq_fide', 'Inkayaku.C01.genNonQuiescent_eq_filter', 'Inkayaku.C01.sliding_iff', 'Inkayaku.C01.knight_iff', 'Inkayaku.C01.king_iff', 'Inkayaku.C01.pawn_iff', 'Inkayaku.C01.castle_iff', 'Inkayaku.C01.genPseudo_iff', 'Inkayaku.C01.genPseudo_uci_iff', 'Inkayaku.C01.genPseudo_nodup', 'Inkayaku.C01.genLegal_nodup', 'Inkayaku.C01.uci_agree', 'Inkayaku.C01.uci_injective', 'Inkayaku.C01.genLegal_eq_spec', 'Inkayaku.C01.perft_moves', 'Inkayaku.C01.legal_moves_exact'] + ['Inkayaku.Closure.genLegal_eq_rules'], cases=c01_cases, anchors=BOARD_ANCHORS),
+    'C01': dict(modules=['Inkayaku.Props.C01', 'Inkayaku.Props.Closure', 'Inkayaku.Props.SpecValidation'], theorems=['Inkayaku.C01.castle_masks_eq_fide', 'Inkayaku.C01.genNonQuiescent_eq_filter', 'Inkayaku.C01.sliding_iff', 'Inkayaku.C01.knight_iff', 'Inkayaku.C01.king_iff', 'Inkayaku.C01.pawn_iff', 'Inkayaku.C01.castle_iff', 'Inkayaku.C01.genPseudo_iff', 'Inkayaku.C01.genPseudo_uci_iff', 'Inkayaku.C01.genPseudo_nodup', 'Inkayaku.C01.genLegal_nodup', 'Inkayaku.C01.uci_agree', 'Inkayaku.C01.uci_injective', 'Inkayaku.C01.genLegal_eq_spec', 'Inkayaku.C01.perft_moves', 'Inkayaku.C01.legal_moves_exact'] + ['Inkayaku.Closure.genLegal_eq_rules'], cases=c01_cases, anchors=BOARD_ANCHORS),
     'C02': dict(modules=['Inkayaku.Props.C02'], theorems=['Inkayaku.C02.make_eq_apply', 'Inkayaku.C02.fen_make', 'Inkayaku.C02.make_eq_apply_legal', 'Inkayaku.C02.fen_make_legal', 'Inkayaku.C02.make_eq_apply_meta', 'Inkayaku.C02.castle_relocates_rook', 'Inkayaku.C02.en_passant_removes_pawn', 'Inkayaku.C02.promotion_replaces_pawn', 'Inkayaku.C02.rights_lost_iff', 'Inkayaku.C02.clock_reset_iff', 'Inkayaku.C02.fullmove_increments_after_black'], cases=c02_cases, anchors=BOARD_ANCHORS),
     'C03': dict(modules=['Inkayaku.Props.C03'], theorems=['Inkayaku.C03.vis_eq_iff', 'Inkayaku.C03.field_roundtrip', 'Inkayaku.C03.pack_injective', 'Inkayaku.C03.unmake_make', 'Inkayaku.C03.unmake_make_line', 'Inkayaku.C03.hash_restored', 'Inkayaku.C03.hash_restored_line', 'Inkayaku.C03.unmake_make_generated', 'Inkayaku.C03.unmake_make_generated_nq', 'Inkayaku.C03.unmake_make_generated_line'], cases=c03_cases, anchors=BOARD_ANCHORS),
     'C04': dict(modules=['Inkayaku.Props.C04'],
